@@ -8,6 +8,7 @@
 
 #include <gdstk/gdstk.hpp>
 
+#include "oas_peer.hpp"
 #include "region.hpp"
 
 using namespace gdstk;
@@ -1861,13 +1862,20 @@ struct Exec {
         if (ex.has("model")) {
             int k = (int)ex.geti("model");
             if (k >= 0 && k < (int)models.size()) {
-                E = expect_oas(k);
+                if (fi.writer == "peer") {
+                    canon::Options o;
+                    o.mode = canon::OAS;
+                    E.c = canon::from_model(models[k], o);
+                } else {
+                    E = expect_oas(k);
+                }
                 have = true;
             }
         } else if (ex.has("canon") && canons.count(ex.gets("canon"))) {
             E.c = canons[ex.gets("canon")];
             have = true;
         }
+        ctx.set("writer", fi.writer);
         bridge::ExtractOptions xo;
         xo.mode = canon::OAS;
         canon::CLib got;
@@ -1880,11 +1888,11 @@ struct Exec {
                 for (auto& c : m.cells)
                     for (auto& r : c.refs)
                         if (!m.in_lib(r.target)) dangling = true;
-                if (op.getd("circle_tol", 0) > 0) accept_circles((int)ex.geti("model"), op.getd("circle_tol"), op.getd("tol", 0), E, got);
+                if (op.getd("circle_tol", 0) > 0 || fi.writer == "peer") accept_circles((int)ex.geti("model"), op.getd("circle_tol", 0), op.getd("tol", 0), E, got);
             }
             ErrorCode want = dangling ? ErrorCode::MissingReference : ErrorCode::NoError;
             if (ec != want && !ex.has("canon")) {
-                viol(prop, "error_code", std::string("read_oas reported ") + bridge::error_name(ec) + " for a file write_oas produced (expected " + bridge::error_name(want) + ")", ctx);
+                viol(prop, "error_code", std::string("read_oas reported ") + bridge::error_name(ec) + " for a valid file (expected " + bridge::error_name(want) + ")", ctx);
             } else {
                 std::string clause, why;
                 if (canon::differ(E.c, got, false, clause, why)) {
@@ -1980,6 +1988,245 @@ struct Exec {
         check_handles(prop, ctx);
     }
 
+
+
+    void op_peer_oas(const J& op) {
+        int k = (int)op.geti("model");
+        if (k < 0 || k >= (int)models.size()) return;
+        std::string file = op.gets("file");
+        oaspeer::Choices ch = oaspeer::choices_from(op.at("choices"));
+        oaspeer::EncodeInfo info;
+        std::vector<uint8_t> bytes = oaspeer::encode(models[k], ch, &info);
+        W->fs.put(file, bytes);
+        W->trace.ev("peer_encode_oas", bytes.size());
+        W->trace.bytes(bytes.data(), bytes.size());
+        FileInfo fi;
+        fi.fmt = "oas";
+        fi.model = k;
+        fi.writer = "peer";
+        fi.oas_sig = ch.validation;
+        finfo[file] = fi;
+        count("peer_oas");
+        uint64_t cb = (uint64_t)ch.cell_names | ((uint64_t)ch.text_strings << 2) | ((uint64_t)ch.prop_names << 4) | ((uint64_t)ch.prop_strings << 6) |
+                      ((uint64_t)ch.cblock << 8) | ((uint64_t)ch.validation << 10) | (ch.explicit_numbers ? 1 << 12 : 0) | (ch.offsets_in_start ? 1 << 13 : 0) |
+                      (ch.strict_tables ? 1 << 14 : 0) | (ch.special_shapes ? 1 << 15 : 0) | (ch.general_reps ? 1 << 16 : 0) |
+                      ((uint64_t)(ch.p_modal * 4) << 17) | (ch.p_relative > 0 ? 1 << 20 : 0) | (ch.p_pad > 0 ? 1 << 21 : 0) | ((uint64_t)ch.unit_form << 22);
+        feature_state("peer_oas", k, cb, 0);
+        // what the stream contains, by the peer's own decoder (census for evidence)
+        oaspeer::Decoded d = oaspeer::decode(bytes);
+        res.counters["peer_oas_modal_reuses"] += d.census.modal_reuse;
+        res.counters["peer_oas_xyrelative"] += d.census.xyrelative;
+        res.counters["peer_oas_cblocks"] += d.census.cblock;
+        res.counters["peer_oas_special_shapes"] += d.census.rectangle + d.census.trapezoid + d.census.ctrapezoid + d.census.circle;
+        for (int i = 0; i < 12; i++) res.counters["peer_oas_rep_type_" + std::to_string(i)] += d.census.repetition[i];
+        for (int i = 0; i < 6; i++) res.counters["peer_oas_pointlist_type_" + std::to_string(i)] += d.census.pointlist[i];
+        for (int i = 0; i < 26; i++)
+            if (d.census.ctrap_type[i]) res.counters["peer_oas_ctrapezoid_type_" + std::to_string(i)] += d.census.ctrap_type[i];
+        if (!d.ok || !d.strict_ok) count("peer_oas_selfcheck_failed");
+    }
+
+    // ============================================================= C04 direction 2: the peer decodes what write_oas wrote
+    struct BBox {
+        double x0 = 1e300, y0 = 1e300, x1 = -1e300, y1 = -1e300;
+        bool exact = true;   // only integer-preserving transforms were applied
+        bool usable = true;  // no path anywhere below (their outline is not recomputed here)
+        void add(double x, double y) {
+            x0 = std::min(x0, x);
+            y0 = std::min(y0, y);
+            x1 = std::max(x1, x);
+            y1 = std::max(y1, y);
+        }
+        bool empty() const { return x0 > x1; }
+    };
+
+    // all vertices of a cell's polygons and label origins, hierarchy flattened, in grid units
+    void collect_points(const model::MLib& lib, const model::MCell& c, std::vector<std::pair<double, double>>& out, bool& exact, bool& usable, int depth) {
+        if (depth > 16) return;
+        if (!c.paths.empty()) usable = false;
+        for (auto& p : c.polys)
+            if (p.hint == 1) usable = false;  // a CIRCLE record approximates the original within the tolerance
+        for (auto& p : c.polys)
+            for (auto& o : canon::rep_offsets(p.rep))
+                for (auto& q : p.pts) out.push_back({(q.x + o.x) / 10.0, (q.y + o.y) / 10.0});
+        for (auto& l : c.labels)
+            for (auto& o : canon::rep_offsets(l.rep)) out.push_back({(l.origin.x + o.x) / 10.0, (l.origin.y + o.y) / 10.0});
+        for (auto& r : c.refs) {
+            const model::MCell* t = lib.find(r.target);
+            if (!t) continue;
+            std::vector<std::pair<double, double>> sub;
+            collect_points(lib, *t, sub, exact, usable, depth + 1);
+            double q = r.rot_deg / 90.0;
+            bool right = q == floor(q);
+            if (!right || r.mag != floor(r.mag)) exact = false;
+            double a = r.rot_deg * (M_PI / 180.0), ca = cos(a), sa = sin(a);
+            if (right) {
+                int k = ((int)llround(q) % 4 + 4) % 4;
+                ca = k == 0 ? 1 : (k == 2 ? -1 : 0);
+                sa = k == 1 ? 1 : (k == 3 ? -1 : 0);
+            }
+            for (auto& o : canon::rep_offsets(r.rep))
+                for (auto& pt : sub) {
+                    double x = pt.first * r.mag, y = pt.second * r.mag;
+                    if (r.xrefl) y = -y;
+                    out.push_back({x * ca - y * sa + (r.origin.x + o.x) / 10.0, x * sa + y * ca + (r.origin.y + o.y) / 10.0});
+                }
+        }
+    }
+
+    static bool has_by_name(const model::MLib& m, const std::string& cell, int depth) {
+        const model::MCell* c = m.find(cell);
+        if (!c || depth > 16) return false;
+        for (auto& r : c->refs) {
+            if (r.how == 1 && m.in_lib(r.target)) return true;
+            if (has_by_name(m, r.target, depth + 1)) return true;
+        }
+        return false;
+    }
+
+    const model::MVal* std_val(const std::vector<model::MProp>& ps, const char* name, size_t idx) {
+        for (auto& p : ps)
+            if (p.name == name && idx < p.vals.size()) return &p.vals[idx];
+        return nullptr;
+    }
+
+    void op_peer_check_oas(const J& op) {
+        std::string file = op.gets("file");
+        if (!W->fs.exists(file)) return;
+        FileInfo& fi = finfo[file];
+        uint64_t flags = fi.max_points;
+        J ctx = J::obj();
+        count("peer_check_oas");
+        oaspeer::Decoded d = oaspeer::decode(W->fs.bytes(file));
+        res.counters["oas_rectangle"] += d.census.rectangle;
+        res.counters["oas_square"] += d.census.square;
+        res.counters["oas_trapezoid"] += d.census.trapezoid;
+        res.counters["oas_ctrapezoid"] += d.census.ctrapezoid;
+        res.counters["oas_circle"] += d.census.circle;
+        res.counters["oas_polygon"] += d.census.polygon;
+        res.counters["oas_path"] += d.census.path;
+        res.counters["oas_text"] += d.census.text;
+        res.counters["oas_placement"] += d.census.placement + d.census.placement_t;
+        res.counters["oas_cblock"] += d.census.cblock;
+        for (int i = 0; i < 12; i++) res.counters["oas_rep_type_" + std::to_string(i)] += d.census.repetition[i];
+        for (int i = 0; i < 6; i++) res.counters["oas_pointlist_type_" + std::to_string(i)] += d.census.pointlist[i];
+        for (int i = 0; i < 26; i++)
+            if (d.census.ctrap_type[i]) res.counters["oas_ctrapezoid_type_" + std::to_string(i)] += d.census.ctrap_type[i];
+        feature_state("peer_check_oas", fi.model, flags, (uint64_t)op.geti("level_class"));
+        if (!d.ok) {
+            viol(prop, "peer_rejects_container", "the independent decoder cannot read the file write_oas produced: " + d.error, ctx);
+            return;
+        }
+        if (!d.strict_ok) {
+            viol(prop, "peer_strict", "the file write_oas produced breaks a format rule: " + d.error, ctx);
+            return;
+        }
+        const J& ex = op.at("expect");
+        int k = (int)ex.geti("model", -1);
+        if (k < 0 || k >= (int)models.size()) return;
+        const model::MLib& m = models[k];
+        // ---- content
+        Expect E = expect_oas(k);
+        canon::Options o;
+        o.mode = canon::OAS;
+        // properties of CELLNAME records belong to their cells (gdstk writes them there)
+        model::MLib dl = d.lib;
+        for (size_t i = 0; i < dl.cells.size() && i < d.cells.size(); i++)
+            for (auto& p : d.cells[i].name_props) dl.cells[i].props.push_back(p);
+        canon::CLib got = canon::from_model(dl, o);
+        got.precision = d.lib.precision;
+        if (op.getd("circle_tol", 0) > 0) accept_circles(k, op.getd("circle_tol"), 1e-9, E, got);
+        std::string clause, why;
+        if (canon::differ(E.c, got, false, clause, why)) {
+            viol(prop, "peer_" + clause, "decoded by the independent decoder: " + why, ctx);
+            return;
+        }
+        // ---- the file's statements about itself
+        if (d.validation != fi.oas_sig)
+            viol(prop, "end_validation_scheme", "END names validation scheme " + std::to_string(d.validation) + ", write_oas was asked for " + std::to_string(fi.oas_sig), ctx);
+        std::set<std::string> placed;
+        for (auto& c : d.lib.cells)
+            for (auto& r : c.refs) placed.insert(r.target);
+        if (flags & OASIS_CONFIG_PROPERTY_TOP_LEVEL) {
+            std::set<std::string> tops, said;
+            for (auto& c : d.lib.cells)
+                if (!placed.count(c.name)) tops.insert(c.name);
+            for (auto& p : d.file_props)
+                if (p.name == "S_TOP_CELL")
+                    for (auto& v : p.vals) said.insert(v.s);
+            if (tops != said) {
+                std::string a, b;
+                for (auto& t : tops) a += " " + t;
+                for (auto& t : said) b += " " + t;
+                viol(prop, "s_top_cell", "S_TOP_CELL lists {" + b + " } but the cells no placement refers to are {" + a + " }", ctx);
+            }
+        }
+        if (flags & OASIS_CONFIG_PROPERTY_CELL_OFFSET) {
+            for (auto& cf : d.cells) {
+                const model::MVal* v = std_val(cf.name_props, "S_CELL_OFFSET", 0);
+                if (!v || v->kind != 0)
+                    viol(prop, "s_cell_offset", "cell '" + cf.name + "' has no S_CELL_OFFSET property although it was requested", ctx);
+                else if (v->u != cf.offset)
+                    viol(prop, "s_cell_offset", "S_CELL_OFFSET of cell '" + cf.name + "' is " + std::to_string(v->u) + ", its CELL record is at " + std::to_string(cf.offset), ctx);
+            }
+        }
+        if (flags & OASIS_CONFIG_PROPERTY_BOUNDING_BOX) {
+            const model::MVal* av = std_val(d.file_props, "S_BOUNDING_BOXES_AVAILABLE", 0);
+            if (!av || av->u != 2) viol(prop, "s_bounding_boxes_available", "S_BOUNDING_BOXES_AVAILABLE is missing or not 2", ctx);
+            for (size_t i = 0; i < d.cells.size(); i++) {
+                const oaspeer::CellFacts& cf = d.cells[i];
+                std::vector<std::pair<double, double>> pts;
+                bool exact = true, usable = true;
+                collect_points(d.lib, d.lib.cells[i], pts, exact, usable, 0);
+                if (!usable) {
+                    count("bbox_skipped_paths_or_circles");
+                    continue;
+                }
+                BBox bb;
+                for (auto& q : pts) bb.add(q.first, q.second);
+                const model::MVal* f = std_val(cf.name_props, "S_BOUNDING_BOX", 0);
+                const model::MVal* x = std_val(cf.name_props, "S_BOUNDING_BOX", 1);
+                const model::MVal* y = std_val(cf.name_props, "S_BOUNDING_BOX", 2);
+                const model::MVal* w = std_val(cf.name_props, "S_BOUNDING_BOX", 3);
+                const model::MVal* h = std_val(cf.name_props, "S_BOUNDING_BOX", 4);
+                if (!f || !x || !y || !w || !h) {
+                    viol(prop, "s_bounding_box", "cell '" + cf.name + "' has no complete S_BOUNDING_BOX property although it was requested", ctx);
+                    continue;
+                }
+                count("bbox_checked");
+                if (bb.empty()) continue;  // gdstk writes (0,0,0,0) for empty cells; the format leaves that open
+                if (has_by_name(m, cf.name, 0)) count("bbox_with_by_name_reference");
+                auto val = [](const model::MVal* v) { return v->kind == 1 ? (double)v->i : (double)v->u; };
+                double tol = exact ? 0.0 : 1.0;
+                double ex0 = exact ? bb.x0 : round(bb.x0), ey0 = exact ? bb.y0 : round(bb.y0);
+                double ex1 = exact ? bb.x1 : round(bb.x1), ey1 = exact ? bb.y1 : round(bb.y1);
+                if (fabs(val(x) - ex0) > tol || fabs(val(y) - ey0) > tol || fabs(val(x) + val(w) - ex1) > tol || fabs(val(y) + val(h) - ey1) > tol) {
+                    char buf[256];
+                    snprintf(buf, sizeof buf, "S_BOUNDING_BOX of cell '%s' says (%g,%g)+(%g,%g), the decoded content spans (%g,%g)-(%g,%g)", cf.name.c_str(),
+                             val(x), val(y), val(w), val(h), bb.x0, bb.y0, bb.x1, bb.y1);
+                    ctx.set("exact_transforms", exact);
+                    ctx.set("by_name_reference_below", has_by_name(m, cf.name, 0));
+                    viol(prop, "s_bounding_box", buf, ctx);
+                }
+            }
+        }
+        if (flags & OASIS_CONFIG_PROPERTY_MAX_COUNTS) {
+            const model::MVal* ms = std_val(d.file_props, "S_MAX_STRING_LENGTH", 0);
+            const model::MVal* mp = std_val(d.file_props, "S_POLYGON_MAX_VERTICES", 0);
+            const model::MVal* mw = std_val(d.file_props, "S_PATH_MAX_VERTICES", 0);
+            const model::MVal* mi = std_val(d.file_props, "S_MAX_SIGNED_INTEGER_WIDTH", 0);
+            const model::MVal* mu = std_val(d.file_props, "S_MAX_UNSIGNED_INTEGER_WIDTH", 0);
+            if (!ms || !mp || !mw || !mi || !mu)
+                viol(prop, "s_max_missing", "a requested S_MAX_* property is missing", ctx);
+            else if (ms->u < d.max_string)
+                viol(prop, "s_max_string_length", "S_MAX_STRING_LENGTH is " + std::to_string(ms->u) + " but the file holds a string of " + std::to_string(d.max_string) + " bytes", ctx);
+            else if (mp->u < d.max_polygon_vertices)
+                viol(prop, "s_polygon_max_vertices", "S_POLYGON_MAX_VERTICES is " + std::to_string(mp->u) + " but a POLYGON record has " + std::to_string(d.max_polygon_vertices) + " vertices", ctx);
+            else if (mw->u < d.max_path_vertices)
+                viol(prop, "s_path_max_vertices", "S_PATH_MAX_VERTICES is " + std::to_string(mw->u) + " but a PATH record has " + std::to_string(d.max_path_vertices) + " vertices", ctx);
+        }
+        (void)m;
+    }
+
     // bounded liveness after the faults: a small library must still save and load
     void op_canary(const J& op) {
         (void)op;
@@ -2055,6 +2302,8 @@ struct Exec {
             else if (opname == "load_check_oas") op_load_check_oas(op);
             else if (opname == "resave_oas") op_resave_oas(op);
             else if (opname == "validate_check") op_validate_check(op);
+            else if (opname == "peer_check_oas") op_peer_check_oas(op);
+            else if (opname == "peer_oas") op_peer_oas(op);
             else op_reader(op);
             res.steps++;
             sched_hash = sim::Trace::mix(sched_hash, fnv(opname) ^ (uint64_t)expected_open());
